@@ -13,10 +13,7 @@ pub fn parse_rootdefinition_enum(
 ) -> TyperResult<ir::RootDefinition> {
     // Register the enumf
     let name = &sd.name;
-    let id = match context.begin_enum(name.clone()) {
-        Ok(id) => id,
-        Err(id) => return Err(TyperError::TypeAlreadyDefined(name.clone(), id)),
-    };
+    let id = context.begin_enum(name.clone())?;
 
     let mut last_value: Option<(ir::Constant, ir::TypeId)> = None;
     for member in &sd.values {
